@@ -139,14 +139,21 @@ func validWire(dec string) ([]byte, func([]byte)) {
 		id, _ := peer.IDFromPrivateKey(k)
 		return []byte(id), func(b []byte) {
 			if pid, err := peer.IDFromBytes(b); err == nil {
-				_, _ = pid.ExtractPublicKey()
+				if pk, err := pid.ExtractPublicKey(); err == nil && pk != nil {
+					_, _ = pk.Verify([]byte("probe"), make([]byte, 64))
+				}
 				_ = pid.String()
 			}
 			_, _ = peer.IDB58Decode(string(b))
 		}
 	case "pubkey":
 		body, _ := crypto.MarshalPublicKey(k.GetPublic())
-		return body, func(b []byte) { _, _ = crypto.UnmarshalPublicKey(b) }
+		return body, func(b []byte) {
+			if pk, err := crypto.UnmarshalPublicKey(b); err == nil && pk != nil {
+				_, _ = pk.Verify([]byte("probe"), make([]byte, 64))
+				_, _ = peer.IDFromPublicKey(pk)
+			}
+		}
 	case "privkey":
 		body, _ := crypto.MarshalPrivateKey(k)
 		return body, func(b []byte) { _, _ = crypto.UnmarshalPrivateKey(b) }
@@ -191,6 +198,26 @@ func mutateWire(dec string, valid []byte, cls string, v int, streaming bool, see
 		}
 		if v%2 == 0 {
 			return out[:4]
+		}
+	case "keyLen":
+		klen := []int{33, 31, 64, 0, 1, 48}[v%6]
+		kd := make([]byte, klen)
+		rng.Read(kd)
+		pkb, _ := (&crypto.PublicKey{KeyType: crypto.KeyType_Ed25519, Data: kd}).MarshalVT()
+		mh := append(append(uvar(0), uvar(uint64(len(pkb)))...), pkb...)
+		switch dec {
+		case "pubkey":
+			return pkb
+		case "peerid":
+			return mh
+		default: // signedmsg, pubmessage: the claimed sender's id embeds the odd key
+			m := &peer.SignedMsg{}
+			if m.UnmarshalVT(valid) != nil {
+				return valid
+			}
+			m.FromPeerId = peer.ID(mh).String()
+			b, _ := m.MarshalVT()
+			return b
 		}
 	case "lenTiny":
 		// a frame whose length prefix announces fewer bytes than any encoder produces (0..5), followed by exactly that many bytes
